@@ -188,12 +188,24 @@ fn rec_sub<E: Engine>(cases: (usize, usize)) -> Sub {
         no_fixed,
         cases,
         |_: &RunCtx, _: Option<&()>| {
-            (0u8..7, 1usize..=6, prop::collection::vec(member_strategy(), 1..=12), 0u8..3).prop_map(|(bits_idx, ext, members, mode)| RecSpec {
-                bits_idx,
-                ext,
-                members,
-                mode,
-            })
+            (0u8..7, 1usize..=6, prop::collection::vec(member_strategy(), 1..=12), 0u8..3, any::<u16>(), any::<u16>(), any::<u8>(), 0u8..3).prop_map(
+                |(bits_idx, ext, mut members, mode, a, b, bit, relate)| {
+                    // in a third of the batches one seeded member's seed differs from another member's in a single bit
+                    if relate == 0 && members.len() >= 2 {
+                        let i = crate::mutate::pick(a, members.len());
+                        let mut j = crate::mutate::pick(b, members.len());
+                        if j == i {
+                            j = (j + 1) % members.len();
+                        }
+                        if let SeedSpec::Uniform(base) = members[i].seed {
+                            members[i].m_log = 0;
+                            members[j].m_log = 0;
+                            members[j].seed = SeedSpec::Related(base, bit);
+                        }
+                    }
+                    RecSpec { bits_idx, ext, members, mode }
+                },
+            )
         },
         oracle::<E>,
     )
